@@ -357,7 +357,7 @@ func basePlans(tier string) []mc.Plan {
 				for _, ops := range sets {
 					for _, v := range []string{"q", "r"} {
 						bounds := []int{0, 1}
-						if tier == "thorough" && len(ops) <= 2 {
+						if tier == "thorough" && (len(ops) <= 1 || (stalled && len(ops) == 2)) {
 							bounds = []int{0, 1, 2}
 						}
 						if tier == "thorough" && len(ops) == 3 && v == "r" {
